@@ -34,7 +34,8 @@ RULE = (
     "case = class hierarchy of depth <= 3 (single spec class; spec parent + plain subclass; spec chains of 2 and 3; "
     "two spec parents; diamond; plain class between spec classes; plain base) with per-class declarations "
     "(annotation x {no default, literal, Attr(default), Attr(default_factory), Attr(), dataclasses.field}, init=False, "
-    "re-declared / merely re-defaulted inherited attributes, key with/without default, overflow attribute, preparer, "
+    "inherited attributes untouched / re-defaulted by a plain value / re-declared by Attr or field WITHOUT annotation with "
+    "their own (flipped) init / re-declared with annotation, key with/without default, overflow attribute, preparer, "
     "hand-written __init__ of the documented shape, __post_init__, lazy/eager bootstrap) rendered to source and exec'd, "
     "x constructor calls on every class of the hierarchy with keyword subsets (quick: sampled, thorough: all subsets "
     "when <= 6 names) over init-enabled, init=False, overflow-attribute and unknown names, conforming and non-conforming "
@@ -396,7 +397,8 @@ def py_wf(case, ns, cname):
         om = ns[o].__dict__.get("__spec_class__") if o in cdefs else None
         ok = ok and (o == k0 or (o in mroK[1:] and om is not None and a in om.attrs))
         declarer = next((kk for kk in mroC if cdefs[kk]["spec"] and (
-            any(d["name"] == a and d["ann"] for d in cdefs[kk]["decls"]) or cdefs[kk]["ovf"] == a)), None)
+            any(d["name"] == a and (d["ann"] or d["kind"] in ("attr", "field")) for d in cdefs[kk]["decls"])
+            or cdefs[kk]["ovf"] == a)), None)
         ok = ok and declarer == o
         if o in cdefs:
             d = _slot(cdefs[o], a)
@@ -524,7 +526,7 @@ def oracle_call(case, ns, call):
     def owner(a):
         for k in spec_mro:
             d = declared(cdefs[k], a)
-            if d is not None and d["ann"]:
+            if d is not None and (d["ann"] or d["kind"] in ("attr", "field")):
                 return k
         return None
 
@@ -874,12 +876,23 @@ def gen_hierarchy(rng, shape=None):
             new = sorted(fresh[:n_new])
             redecl = [a for a in inh if a not in ("k", "opts") and rng.random() < 0.25]
             redef = [a for a in inh if a not in redecl and a not in ("opts",) and rng.random() < 0.25]
+            # re-declared through Attr(...)/field(...) WITHOUT repeating the annotation: the subclass's own options win
+            reattr = [a for a in inh if a not in redecl and a not in redef and a not in ("k", "opts") and rng.random() < 0.25]
             order = new + redecl
             rng.shuffle(order)
             for a in order:
                 c["decls"].append(gen_decl(rng, a, TYPES[a]))
             for a in redef:
                 c["decls"].append(gen_decl(rng, a, TYPES[a], annotated=False))
+            for a in reattr:
+                d = gen_decl(rng, a, TYPES[a])
+                if d["kind"] in ("none", "lit"):
+                    d["kind"] = rng.choice(["attr", "field"])
+                    if d["default"] is None and rng.random() < 0.7:
+                        d["default"] = rng.choice(DEFAULTS[TYPES[a]])
+                d["ann"] = False
+                d["init"] = rng.random() < 0.5 if (d["default"] is not None or d["factory"] is not None) else True
+                c["decls"].append(d)
             on_primary = name in primary
             if on_primary and used_key and "k" not in inh and rng.random() < 0.6:
                 c["key"] = "k"
